@@ -10,6 +10,11 @@
      {"op":"Poke", "h":k, "j":j, "n":v, ...}     the caller executes slice[j] = v (j from 1) on the k-th kept slice
      {"op":"Fill", "h":k, ...}                   the caller overwrites the k-th kept (owned) slice: b -> 255-b, and
                                                  appends a byte into whatever spare capacity the slice has
+     {"op":"Recycle", "b":[..], ...}             the record ended, the library took the encoder back and handed
+                                                 it (as a rule the same object: "same") to a marshaller of the next
+                                                 record; b = what the library has written of that record so far
+                                                 (computed by the worker from the record, not read from the encoder);
+                                                 observations (pan, len, s, bs, hv) taken on entry of the marshaller
 
    arguments      n   integer argument (len(p) of Read, Next/Truncate/Grow count, byte, rune, delimiter)
                   b   byte argument (Write/WriteString payload; for ReadFrom what the reader delivered)
@@ -89,7 +94,7 @@ ArgOf(e) == IF e.op \in {"Write", "WriteString"} THEN e.b ELSE <<>>
 
 KnownOp(e) == e.op \in {"Write", "WriteString", "WriteByte", "WriteRune", "Read", "Next", "ReadByte", "ReadRune",
                         "UnreadByte", "UnreadRune", "ReadBytes", "ReadString", "Truncate", "Reset", "Grow",
-                        "ReadFrom", "WriteTo", "Len", "Bytes", "String", "NilString"}
+                        "ReadFrom", "WriteTo", "Len", "Bytes", "String", "NilString", "Recycle"}
 
 \* a call made from inside a collaborator against the model's outcome of it
 NMatch(ne, no) ==
